@@ -45,6 +45,16 @@ CHECKS.update({
         design_ref="5/C15", note=CACHE_NOTE + " Latency statistics and the concurrent-refresh clause are not yet decided by this check (see DESIGN.md section 6).",
         technique="TLA+ spec (Cache counters, CacheMC CountersInv/LatestInv) exhaustive TLC + trace validation of Cache.Metadata() on real cache.Cache (CacheTrace)"),
 })
+CHECKS["C11"] = dict(category="model_checking",
+    text="Coalesce.tla (sequential semantics: FIFO by first pending insertion, dup counts, conservation, refusal after close) and CoalesceChan.tla (implementation-shaped: mutex, capacity-1 token channel, "
+         "closed broadcast; 2 producers x 2 inserts, consumer, closer, canceller) are model-checked exhaustively incl. liveness (consumer returns, pending items are consumed) and two mutant configurations "
+         "(token before insert, no Len()==0 re-check) must yield counterexamples. On the real coalesce.Queue: every sequence of length 5 (thorough 6) over Insert a/b/c, Next, Close, IsClosed and random long "
+         "sequences are validated linearly (CoalesceTrace); thousands of concurrent histories with delays at the three hook points are validated against CoalesceLin with TLC inferring the linearization points; "
+         "a consumer not woken within 5 s is a 'hang' event no action accepts.",
+    design_ref="5/C11",
+    note="Trusts TLC/Json, the mutex-serialised event log (file order = real-time order), and the 5 s watchdog bound. Concurrent schedules are sampled (seeded delays at hook points), not enumerated; "
+         "the exhaustive interleaving argument is carried by CoalesceChan.tla, bound to the code by the same hook points.",
+    technique="TLA+ specs (Coalesce, CoalesceChan incl. liveness + mutants) exhaustive TLC; trace validation of sequential runs and linearizability-style validation of concurrent histories (CoalesceLin)")
 
 NOT_YET = {
 }
